@@ -34,6 +34,17 @@ fn one(r: &Value) -> Value {
     let xs = slice_of(&r["x"]);
     let ys = slice_of(&r["y"]);
     let n = r["n"].as_u64().unwrap_or(0) as usize;
+    // the hi64 building blocks (both limb widths are compiled on every target): limbs most significant first
+    if op.starts_with("u32_hi64") || op.starts_with("u64_hi64") {
+        let (h, s) = match op {
+            "u32_hi64_1" => bigint::u32_to_hi64_1(xs[0] as u32),
+            "u32_hi64_2" => bigint::u32_to_hi64_2(xs[0] as u32, xs[1] as u32),
+            "u32_hi64_3" => bigint::u32_to_hi64_3(xs[0] as u32, xs[1] as u32, xs[2] as u32),
+            "u64_hi64_1" => bigint::u64_to_hi64_1(xs[0] as u64),
+            _ => bigint::u64_to_hi64_2(xs[0] as u64, xs[1] as u64),
+        };
+        return json!({"r": "ok", "v": [], "k": 0, "h": limbs(h as u128), "s": s});
+    }
     let mut x = match VecType::try_from(&xs) {
         Some(v) => v,
         None => return json!({"r": "skip", "v": [], "k": 0, "h": [], "s": false}),
